@@ -306,6 +306,10 @@ package resolver
 //@   # an authority failure)
 //@   assert at return#1: result0 == nil && dyntype(result1, *dnsutil.EDEError) && as(result1, *dnsutil.EDEError) == errResolutionCapacity
 //@   assert at return#2: result0 == nil && dyntype(result1, *dnsutil.EDEError) && as(result1, *dnsutil.EDEError) == errZoneCapacity
+//@   # C11 ("no ... leaked limiter slots"): by the time the per-zone quota is consulted - whose refusal returns at once -
+//@   # the release of the global slot taken just before is already registered, so a zone-quota refusal gives the global
+//@   # slot back
+//@   assert at call (*middleware/resolver.zoneInflightLimiter).acquire#1: r.resolutionSlots != nil ==> deferred("(*middleware/resolver.Resolver).groupLookup$1$1") == 1
 //@
 //@ # ---- C09: RFC 5011 trust-anchor maintenance.
 //@ # a revocation is recognised only for the SAME key material with exactly the REVOKE bit toggled
@@ -328,6 +332,9 @@ package resolver
 //@   assert at mapupdate#2: themap == revoked && value
 //@   # both kinds of marker count (a cover each: the branch that records the marker is reachable for that state)
 //@   possible at mapupdate#2: ta.State == StateRevoked
+//@   # the state file's markers are consulted whatever the tombstone store holds (a marker is the only record of a
+//@   # revocation whose tombstone write failed, and older tombstones say nothing about it)
+//@   possible at call path/filepath.Join#2: len(tombstones) > 0
 //@   possible at mapupdate#2: ta.State == StateRemoved
 //@
 //@ func NewResolver
@@ -341,6 +348,9 @@ package resolver
 //@   nosafety all pre
 //@   assert at return#1: result == "" && k == nil
 //@   assert at call middleware/resolver.dnskeyMaterialFP#1: arg0 == k
+//@   # the identity carries the key's flags EXACTLY (all sixteen bits: the revoked form of a key is a different key)
+//@   assert at call fmt.Sprintf#1: arg0 == "%d|%s" && len(arg1) == 2 && dyntype(arg1[0], uint16) && as(arg1[0], uint16) == k.Flags
+//@   assert at return#2: result == lastret("fmt.Sprintf")
 //@
 //@ func sameKeyExceptRevoke
 //@   modifies nothing
@@ -383,6 +393,10 @@ package resolver
 //@   assert at call middleware/resolver.revocationIsSelfSignedWithWork#1: arg0 == rrs && arg1 == ta.DNSKey && arg2 == work
 //@   assert at call middleware/resolver.unrevokedKeyTag#1: arg0 == ta.DNSKey
 //@   assert at call middleware/resolver.sameKeyExceptRevoke#1: arg0 == oldTA.DNSKey && arg1 == ta.DNSKey
+//@   # a revocation is staged whatever else sits under the revoked form's tag: only the SAME key already tracked in its
+//@   # revoked form is skipped, a different key that merely shares the 16-bit tag is not (RFC 5011 2.1; "or a key-tag
+//@   # collision")
+//@   possible at call middleware/resolver.sameKeyExceptRevoke#1: existing != nil
 //@
 //@ # state files are replaced atomically: temp file written, synced and closed BEFORE the rename; the directory is synced after it
 //@ func atomicGobWrite
@@ -566,6 +580,13 @@ package resolver
 //@   # to pack and nothing would be sent - is turned into SERVFAIL built from the request
 //@   assert at return#8: result == lastret("internal/dnsutil.SetRcodeWithEDE#4")
 //@   assert at call internal/dnsutil.SetRcodeWithEDE#4: arg0 == req && arg1 == dns.RcodeServerFailure && lastret("(*middleware/resolver.Resolver).Resolve").Rcode > 15
+//@   # ... and that conversion is taken for EVERY rcode above 15, not for a list of the named ones: the lowest (16), the
+//@   # first unassigned one (24) and the highest a 12-bit extended rcode can carry (4095) all reach it. (The universal
+//@   # form "what is returned as is has Rcode <= 15" cannot be anchored at the return: the deferred calls run first and
+//@   # the abstracting tier forgets the heap across them.)
+//@   possible at call internal/dnsutil.SetRcodeWithEDE#4: lastret("(*middleware/resolver.Resolver).Resolve").Rcode == 16
+//@   possible at call internal/dnsutil.SetRcodeWithEDE#4: lastret("(*middleware/resolver.Resolver).Resolve").Rcode == 24
+//@   possible at call internal/dnsutil.SetRcodeWithEDE#4: lastret("(*middleware/resolver.Resolver).Resolve").Rcode == 4095
 //@   assert at call internal/dnsutil.SetRcodeWithEDE#2: arg1 == dns.RcodeServerFailure && arg0 == req
 //@   assert at call internal/dnsutil.SetRcodeWithEDE#3: arg1 == dns.RcodeServerFailure && arg0 == req
 //@
